@@ -37,9 +37,15 @@ pub enum Fault {
     Fail,
     /// QR bit clear
     NotAResponse,
+    /// the right reply without its question section (QDCOUNT 0)
+    NoQuestion,
+    /// the right reply with the question given twice
+    TwoQuestions,
 }
 
-pub const ALL_FAULTS: [Fault; 16] = [
+pub const ALL_FAULTS: [Fault; 18] = [
+    Fault::NoQuestion,
+    Fault::TwoQuestions,
     Fault::None,
     Fault::Drop,
     Fault::Delay(0),
@@ -197,7 +203,7 @@ fn structural_reply(u: &Universe, s: &[Structural], ip: std::net::IpAddr, q: &WQ
 }
 
 fn gen_fault(g: &mut Gen) -> Fault {
-    match g.weighted(&[6, 2, 3, 1, 1, 1, 1, 1, 1, 1, 1]) {
+    match g.weighted(&[6, 2, 3, 1, 1, 1, 1, 1, 1, 1, 1, 1, 1]) {
         0 => Fault::None,
         1 => Fault::Drop,
         2 => Fault::Delay(g.pick(&[0u32, 100, 4_999, 5_000, 5_001, 9_000, 20_000, 59_000, 61_000, 70_000])),
@@ -208,7 +214,9 @@ fn gen_fault(g: &mut Gen) -> Fault {
         7 => Fault::Rcode(g.pick(&[1u8, 2, 4, 5, 9])),
         8 => Fault::AlterQuestion,
         9 => Fault::Fail,
-        _ => Fault::NotAResponse,
+        10 => Fault::NotAResponse,
+        11 => Fault::NoQuestion,
+        _ => Fault::TwoQuestions,
     }
 }
 
@@ -252,7 +260,7 @@ impl Prop for Faults {
     }
 
     fn enumerate(&self, tier: Tier, emit: &mut dyn FnMut(Case)) {
-        // every assignment of the 16 faults to the first 2 (quick) / 3
+        // every assignment of the 18 faults to the first 2 (quick) / 3
         // (thorough) exchanges of a fixed three-level resolution
         let mk_zone = |apex: &str, ns: &str, recs: Vec<ZRec>| UZone {
             apex: N::parse(apex),
@@ -263,6 +271,7 @@ impl Prop for Faults {
             chases: false,
             extra_sections: false,
             ns_ttl: 300,
+            glue_families: 0,
         };
         let universe = Universe {
             zones: vec![
@@ -275,6 +284,7 @@ impl Prop for Faults {
                 UHost { name: N::parse("ns1.com."), v4: vec![[10, 0, 0, 2]], v6: vec![] },
                 UHost { name: N::parse("ns1.example.com."), v4: vec![[10, 0, 0, 3]], v6: vec![] },
             ],
+            unserved: vec![],
         };
         let depth = if tier == Tier::Thorough { 3 } else { 2 };
         let n = ALL_FAULTS.len();
@@ -386,6 +396,11 @@ impl Prop for Faults {
                     }
                 }
                 Fault::NotAResponse => m.qr = false,
+                Fault::NoQuestion => m.questions.clear(),
+                Fault::TwoQuestions => {
+                    let extra = m.questions.first().cloned();
+                    m.questions.extend(extra);
+                }
             }
             let id = m.id;
             let tc = m.tc;
@@ -497,7 +512,7 @@ pub fn def() -> PropertyDef {
     PropertyDef {
         id: "C08",
         level: "fault_enumeration",
-        rule: "fault-plans: a generated universe (as in C07) with 0..2 structural faults planted (lame servers, circular referrals, referrals to an ancestor, withheld glue, nameserver sets of three names that do not exist, alias loops of length 1..5 in zone data and in the pre-seeded cache, alias chains of 3..40 links) and a fault plan assigning to the first 0..12 exchanges one of: none, drop, delay (0, 100 ms, 4.999 s, 5 s, 5.001 s, 9 s, 20 s, 59 s, 61 s, 70 s), garbage octets, truncated prefix of the right reply, wrong ID, TC, rcode 1/2/4/5/9, altered question, transport failure, QR clear; one case in five has slow servers throughout (every reply after 1 s, 2.5 s, 4 s, 4.9 s or 4.999 s) and one in six truncates every UDP reply, so that long walks and chains run into the 60 s budget (the resolver's overall timeout is reached in about 0.2% of the resolutions); the forwarder answers aliases completely or link by link; recursive (all protocol modes) and forwarding mode; plus the exhaustive enumeration of all assignments of 16 faults to the first 2 (quick) / 3 (thorough) exchanges of a fixed three-level resolution, in both modes. Time is tokio's paused clock; every exchange costs at least 1 ms. Oracle: the resolution returns; virtual elapsed <= 60 s; every exchange is delivered or abandoned within 5 s of its start; no panic; every record of an Ok result occurs in a delivered reply, the hints or the pre-seeded cache. Non-trivial = at least one planned fault was reached or a structural fault is planted. Distinct by hash of the case.",
+        rule: "fault-plans: a generated universe (as in C07) with 0..2 structural faults planted (lame servers, circular referrals, referrals to an ancestor, withheld glue, nameserver sets of three names that do not exist, alias loops of length 1..5 in zone data and in the pre-seeded cache, alias chains of 3..40 links) and a fault plan assigning to the first 0..12 exchanges one of: none, drop, delay (0, 100 ms, 4.999 s, 5 s, 5.001 s, 9 s, 20 s, 59 s, 61 s, 70 s), garbage octets, truncated prefix of the right reply, wrong ID, TC, rcode 1/2/4/5/9, altered question, question section missing or doubled, transport failure, QR clear; one case in five has slow servers throughout (every reply after 1 s, 2.5 s, 4 s, 4.9 s or 4.999 s) and one in six truncates every UDP reply, so that long walks and chains run into the 60 s budget (the resolver's overall timeout is reached in about 0.2% of the resolutions); the forwarder answers aliases completely or link by link; recursive (all protocol modes) and forwarding mode; plus the exhaustive enumeration of all assignments of 18 faults to the first 2 (quick) / 3 (thorough) exchanges of a fixed three-level resolution, in both modes. Time is tokio's paused clock; every exchange costs at least 1 ms. Oracle: the resolution returns; virtual elapsed <= 60 s; every exchange is delivered or abandoned within 5 s of its start; no panic; every record of an Ok result occurs in a delivered reply, the hints or the pre-seeded cache. Non-trivial = at least one planned fault was reached or a structural fault is planted. Distinct by hash of the case.",
         assumptions: vec!["a real-time hang shows as the engine's wall-clock budget (exit 2), not as a violation"],
         parts: vec![Box::new(Faults)],
         budget_s: |t| t.pick(900, 10_800),
